@@ -14,13 +14,25 @@ Oracles (every clause has its own bucket prefix):
   globals    __globals__ is the original module dictionary
   cells      every original free variable is a free variable of the converted function and its
              cell is the original cell (matched by name; extra cells such as ag__ are fine)
-  method     a converted bound method takes the instance first
+  method     a converted bound method takes the instance first (classmethod: the class)
+  routes     a script call on the converted side reaches the converted function either directly (the function returned
+             by to_graph / the private transpiler, instance passed first) or by dynamic conversion of the ORIGINAL
+             callable: api.convert(...)(target)(...), api.converted_call(target, args, kwargs), a call made from inside
+             converted code (drive(fn_, a_, k_) / drive_attr(o_, ...): o_.m(...)), optionally with the callable wrapped in
+             a functools.partial, taken unbound from the class (instance passed explicitly) or being the instance itself
+             (callable object whose __call__ is the target method). All of them must behave like target(*args, **kwargs).
+             Receivers of bound methods come in flavours that answer bool() / == / hash() / getattr unusually (falsy by
+             __len__ / __bool__ / being an empty list subclass, bool() raising, == raising or returning a list,
+             unhashable, catch-all __getattr__; for classmethods the class is made falsy through its metaclass) and the
+             script can flip the truth value between calls. With config.strict the mixed run sets
+             AUTOGRAPH_STRICT_CONVERSION=1 so that errors inside the call wrapper are not hidden by the silent fallback.
   call / writethrough / state   the script is run twice: on environment A only through the
              original functions (reference), on an identically built environment B where drawn
              operations go through the converted function (and converted sibling setters). Results
              (value or exception type) and the state observed after every step (all cells through
              the sibling getters, module globals, the default objects) must agree.
 """
+import functools
 import inspect
 import itertools
 import os
@@ -40,8 +52,12 @@ TECHNIQUE = ('property-based testing with Hypothesis: generated signatures x clo
              'tracer oracle (default / decorator expressions log when evaluated) and a differential script oracle (same operation '
              'sequence on an all-original environment vs. an environment where drawn steps use the converted functions)')
 RULE = ('a case = one generated module + conversion configuration + script. Targets: module-level def, nested def, lambda '
-        '(module / nested), bound method (module / nested class, with super()), 1-3 closures sharing one code object (factory '
-        'called repeatedly or def inside a for loop). Signatures: 0-2 (thorough 0-3) positional-only, positional-or-keyword, '
+        '(module / nested), bound method (module / nested class, with super(); instance method or classmethod; receiver flavours '
+        'plain / falsy-or-truthy via __len__, __bool__, list subclass / bool() raises / == raises / == returns list / unhashable / '
+        'catch-all __getattr__, truth value toggled by the script; optionally a callable object), 1-3 closures sharing one code '
+        'object (factory called repeatedly or def inside a for loop). Calls on the converted side go through one of the routes '
+        'direct / convert() wrapper / converted_call / call from inside converted code (callable passed in, attribute call, '
+        'callable object), optionally through functools.partial or the unbound function. Signatures: 0-2 (thorough 0-3) positional-only, positional-or-keyword, '
         'keyword-only parameters, *args, **kwargs, defaults of kinds int/falsy/None/list/dict/object/enclosing-local, '
         'annotations, __defaults__/__kwdefaults__ replaced after definition. Closures: 0-4 free variables on 1-2 nesting '
         'levels with uses read / nested-only (called or never called) / rebinding (straight-line, if, if-else, for, while, try; '
@@ -55,13 +71,15 @@ ASSUMPTIONS = [
     'annotations are restricted to expressions resolvable in module globals without side effects (annotations are outside the property text)',
     'shapes of listed known findings are excluded by construction (see coverage.classes excluded:*)',
     'one lambda per source line (source recovery of ambiguous lambdas is C15)',
+    'dynamic routes compare the outcome of the call (value / exception type) and all observable state with the plain call of the '
+    'original; whether the callee was really converted (and not run as-is by policy) is C13',
 ]
 LEVEL_TEXT = ('Randomised exploration of signature x closure x entity-kind x binding space; every explored case is checked against '
               'exact attribute oracles and an executed reference, so any reported divergence is a concrete counterexample. No '
               'claim beyond the cases counted.')
 LEVEL_NOTE = ('Trusted: CPython argument binding and closure semantics as the reference, the renderer producing the intended module. '
-              'Out of reach: > 3 parameters per kind, > 4 free variables, class / callable-object conversion, functions built with '
-              'types.FunctionType or code.replace.')
+              'Out of reach: > 3 parameters per kind, > 4 free variables, to_graph of classes / callable objects (callable objects '
+              'are only reached through dynamic conversion), staticmethods, functions built with types.FunctionType or code.replace.')
 
 _KEEP = []
 
@@ -128,6 +146,18 @@ class Base(object):
   def tag(self):
     return 'base'
 
+  @classmethod
+  def ctag(cls):
+    return 'cbase'
+
+
+def drive(fn_, a_, k_):
+  return fn_(*a_, **k_)
+
+
+def drive_attr(o_, a_, k_):
+  return o_.m(*a_, **k_)
+
 
 def merge(envs):
   out = {'targets': [], 'refs': [], 'selfs': [], 'peek': {}, 'poke': {}, 'drop': {}}
@@ -149,8 +179,39 @@ DEFAULT_EXPR = {
 MUTABLE = {'list': 'list', 'list1': 'list', 'dict': 'dict', 'local': 'list'}
 
 
+# receiver flavours of bound methods: how the instance (for classmethods: the class, through its metaclass) answers
+# the questions a careless implementation may ask it (truth value, equality, hash, attribute probing)
+INST_DUNDERS = {
+    'plain': [],
+    'len': ['def __len__(self):', '  return 1 if self.on else 0'],
+    'bool': ['def __bool__(self):', '  return self.on'],
+    'bool_raises': ['def __bool__(self):', "  raise ValueError('truth value is ambiguous')"],
+    'eq_raises': ['def __eq__(self, other_):', "  raise ValueError('comparison is ambiguous')", '__hash__ = object.__hash__'],
+    'eq_list': ['def __eq__(self, other_):', '  return [self is other_]', 'def __ne__(self, other_):', '  return []',
+                '__hash__ = object.__hash__'],
+    'unhashable': ['def __eq__(self, other_):', '  return self is other_', '__hash__ = None'],
+    'list_sub': [],   # class C(Base, list): empty container = falsy, == compares contents, unhashable
+    'getattr_any': ['def __getattr__(self, n_):', "  if n_.startswith('__'):", '    raise AttributeError(n_)', '  return 0'],
+}
+INST_CM = ['plain', 'len', 'bool', 'bool_raises']   # flavours applicable to a class (through a metaclass)
+
+
+def falsy_receiver(spec):
+  """True / False: truth value of the receiver at definition time; None: asking raises."""
+  inst = spec.get('inst', 'plain')
+  if inst == 'bool_raises':
+    return None
+  if inst in ('len', 'bool', 'list_sub'):
+    return not spec.get('inst_on', True)
+  return False
+
+
 def is_method(kind):
   return kind.endswith('method')
+
+
+def recv_name(spec):
+  return 'cls' if spec.get('meth') == 'classmethod' else 'self'
 
 
 def is_lambda(kind):
@@ -178,7 +239,7 @@ def sig_src(spec, with_self=False):
   ps = spec['params']
   out = []
   if with_self:
-    out.append('self')
+    out.append(recv_name(spec))
   po = [p for p in ps if p['kind'] == 'po']
   pk = [p for p in ps if p['kind'] == 'pk']
   va = [p for p in ps if p['kind'] == 'va']
@@ -275,9 +336,9 @@ def body_lines(spec):
 def result_expr(spec, extra=()):
   items = []
   if is_method(spec['kind']):
-    items.append('self.base')
+    items.append(recv_name(spec) + '.base')
     if spec.get('super'):
-      items.append('super().tag()')
+      items.append('super().ctag()' if spec.get('meth') == 'classmethod' else 'super().tag()')
   for p in spec['params']:
     items.append(p['name'])
   for v in spec.get('free', []):
@@ -310,10 +371,34 @@ def target_def_lines(spec):
     return out
   ret = (' -> ' + spec['ret_anno']) if spec.get('ret_anno') else ''
   if is_method(kind):
-    out += ['class C(Base):', '', '  def __init__(self):', '    self.base = 7', '']
+    inst, on = spec.get('inst', 'plain'), bool(spec.get('inst_on', True))
+    cm = spec.get('meth') == 'classmethod'
+    dunders = _ind(INST_DUNDERS[inst], 2)
+    if cm and inst != 'plain':
+      # the receiver of a classmethod is the class: its truth value comes from the metaclass
+      out += ['class Meta(type):', ''] + dunders + ['']
+      out += ['class C(Base, metaclass=Meta):', '']
+    elif inst == 'list_sub':
+      out += ['class C(Base, list):', '']
+    else:
+      out += ['class C(Base):', '']
+    if cm:
+      out += ['  base = 7', '  on = %r' % on, '']
+    else:
+      out += ['  def __init__(self):', '    self.base = 7', '    self.on = %r' % on]
+      if inst == 'list_sub':
+        out += ['    if self.on:', '      self.append(1)']
+      out.append('')
+      if dunders:
+        out += dunders + ['']
+    if cm:
+      out.append('  @classmethod')
     out.append('  def m(%s)%s:' % (sig_src(spec, with_self=True), ret))
     out += _ind(body_lines(spec), 4)
     out.append('')
+    if spec.get('callable') and not cm:
+      # callable object: calling the instance runs the target method
+      out += ['  __call__ = m', '']
     return out
   for d in spec.get('deco', []):
     out.append('@' + {'reg': 'reg', 'wrap': 'wrap', 'regarg': "regarg(t('DA', 3))"}[d])
@@ -393,9 +478,13 @@ def render(spec):
         mk.append('%s = e_ * 100 + %d' % (v['name'], i + 1))
   # targets
   if is_method(kind):
-    mk += ['obj = C()']
-    mk += post_lines(spec, 'C.m')
-    mk += ["targets, refs, selfs = [obj.m], [C.m], [obj]"]
+    if spec.get('meth') == 'classmethod':
+      mk += post_lines(spec, "C.__dict__['m'].__func__")
+      mk += ["targets, refs, selfs = [C.m], [C.__dict__['m'].__func__], [C]"]
+    else:
+      mk += ['obj = C()']
+      mk += post_lines(spec, 'C.m')
+      mk += ["targets, refs, selfs = [obj.m], [C.m], [obj]"]
   elif inloop:
     mk += ['for f in fs:'] + _ind(post_lines(spec, 'raw(f)') or ['pass'], 2)
     mk += ['targets = [raw(f) for f in fs]', 'refs = list(targets)', 'selfs = [None] * len(fs)']
@@ -440,8 +529,8 @@ CTXS = ['plain', 'if', 'ifelse', 'for', 'while', 'try']
 
 @st.composite
 def specs(draw, maxk=2):
-  kind = draw(st.sampled_from(['nest_def'] * 8 + ['nest_lambda'] * 3 + ['nest_method'] * 3 +
-                              ['mod_def'] * 3 + ['mod_lambda'] * 1 + ['mod_method'] * 2))
+  kind = draw(st.sampled_from(['nest_def'] * 8 + ['nest_lambda'] * 3 + ['nest_method'] * 4 +
+                              ['mod_def'] * 3 + ['mod_lambda'] * 1 + ['mod_method'] * 3))
   nested, lam, meth = is_nested(kind), is_lambda(kind), is_method(kind)
   spec = {'kind': kind, 'excluded': []}
   # ---- parameters
@@ -523,6 +612,13 @@ def specs(draw, maxk=2):
   spec['free'] = free
   if meth:
     spec['super'] = draw(st.booleans())
+    # receiver of the bound method: instance or (classmethod) the class; flavour of its truth value / equality / hash
+    spec['meth'] = draw(st.sampled_from(['instance'] * 4 + ['classmethod']))
+    flav = INST_CM if spec['meth'] == 'classmethod' else sorted(INST_DUNDERS)
+    spec['inst'] = draw(st.sampled_from(['plain', 'len', 'bool'] + flav + (['list_sub'] if 'list_sub' in flav else [])))
+    spec['inst_on'] = draw(st.booleans())
+    if spec['meth'] == 'instance':
+      spec['callable'] = draw(st.integers(0, 2)) == 0
   spec['gread'] = draw(st.booleans())
   spec['gwread'] = draw(st.integers(0, 3)) == 0
   # ---- body statements
@@ -613,14 +709,36 @@ def cases(draw, maxk=2):
   keys = var_keys(spec)
   script = []
   nops = draw(st.integers(3, 8))
+  meth = is_method(spec['kind'])
+  routes = ['direct'] * 5 + ['convert'] * 2 + ['cc', 'inner']
+  if meth and spec.get('meth') != 'classmethod':
+    routes += ['inner_attr']
+    if spec.get('callable'):
+      routes += ['convert_obj', 'inner_obj'] * 2
   for _ in range(nops):
     kinds = ['call'] * 6 + ['gset']
     if keys:
       kinds += ['poke'] * 3 + ['drop']
+    if meth and spec.get('inst') in ('len', 'bool', 'list_sub'):
+      kinds += ['toggle'] * 2
     k = draw(st.sampled_from(kinds))
     if k == 'call':
-      script.append({'op': 'call', 'ti': draw(st.integers(0, nt - 1)), 'side': draw(st.sampled_from(['c', 'c', 'o'])),
-                     'bind': draw(bindings(spec))})
+      step = {'op': 'call', 'ti': draw(st.integers(0, nt - 1)), 'side': draw(st.sampled_from(['c', 'c', 'o'])),
+              'bind': draw(bindings(spec))}
+      # how the converted function is reached: direct = the function returned by to_graph / the private transpiler
+      # (instance passed first); convert = api.convert(...)(target)(...); cc = api.converted_call(target, args, kwargs);
+      # inner / inner_attr = the call is made from inside converted code (recursive conversion of the callee)
+      step['route'] = draw(st.sampled_from(routes))
+      if step['route'] in ('convert', 'cc', 'inner') and draw(st.integers(0, 3)) == 0:
+        step['partial'] = {'npos': draw(st.integers(0, len(step['bind']['pos']))), 'kw': draw(st.booleans())}
+      if step['route'] == 'cc':
+        step['kwnone'] = draw(st.booleans())
+      if meth and spec.get('meth') != 'classmethod' and step['route'] in ('convert', 'cc', 'inner'):
+        # the plain function found on the class, instance passed explicitly
+        step['unbound'] = draw(st.integers(0, 4)) == 0
+      script.append(step)
+    elif k == 'toggle':
+      script.append({'op': 'toggle', 'ti': draw(st.integers(0, nt - 1))})
     elif k == 'poke':
       script.append({'op': 'poke', 'key': draw(st.sampled_from(keys)), 'val': draw(st.integers(20, 29)),
                      'side': draw(st.sampled_from(['o', 'o', 'c']))})
@@ -634,6 +752,9 @@ def cases(draw, maxk=2):
       'features': draw(st.sampled_from([[], [], ['BUILTIN_FUNCTIONS'], ['EQUALITY_OPERATORS'], ['LISTS']])),
       'reconvert': draw(st.integers(0, 3)) == 0,
       'order': list(draw(st.permutations(list(range(nt))))),
+      # AUTOGRAPH_STRICT_CONVERSION=1 during the mixed run: an error inside the call wrapper surfaces instead of silently
+      # falling back to the unconverted function (which would hide a lost instance behind an equal result)
+      'strict': draw(st.sampled_from([True, True, False])),
   }
   return {'spec': spec, 'script': script, 'config': cfg}
 
@@ -666,6 +787,60 @@ def _outcome(fn, args, kwargs):
     return ['ok', repr(fn(*args, **kwargs))]
   except Exception as e:  # the property compares exception types
     return ['exc', _exc_name(e)]
+
+
+def _truth(o):
+  try:
+    return bool(o)
+  except Exception:
+    return None
+
+
+def _driver(name, mod, cfg, tr, drivers, fails_out):
+  if name not in drivers:
+    fn = getattr(mod, name)
+    feats = _features(cfg.get('features'))
+    try:
+      if cfg.get('entry', 'to_graph') == 'private':
+        drivers[name] = harness.convert_private(tr, fn, harness.options(recursive=True, features=feats))
+      else:
+        drivers[name] = api.to_graph(fn, recursive=True, experimental_optional_features=feats)
+    except Exception as e:
+      fails_out.append(('convert-driver:' + harness.exc_bucket(e), {'exc': repr(e)[:500], 'driver': name}))
+      drivers[name] = fn
+  return drivers[name]
+
+
+def _dynamic_call(step, target, ref, recv, pos, kw, mod, cfg, tr, drivers, fails_out):
+  """A call of the original `target` (function or bound method) that reaches its converted version through dynamic
+  conversion. Must behave like target(*pos, **kw)."""
+  from malt.core import converter
+  route = step['route']
+  feats = _features(cfg.get('features'))
+  rec = cfg.get('recursive', True)
+  callee, pos2, kw2 = target, list(pos), dict(kw)
+  if route in ('convert_obj', 'inner_obj'):
+    callee = recv
+    route = route[:-4]
+  elif step.get('unbound') and recv is not None and route != 'inner_attr':
+    callee, pos2 = ref, [recv] + pos2
+  part = step.get('partial')
+  if part and route != 'inner_attr':
+    n = min(part['npos'], len(pos2))
+    frozen = kw2 if part['kw'] else {}
+    callee = functools.partial(callee, *pos2[:n], **frozen)
+    pos2, kw2 = pos2[n:], ({} if part['kw'] else kw2)
+  if route == 'convert':
+    return _outcome(api.convert(recursive=rec, optional_features=feats)(callee), pos2, kw2)
+  if route == 'cc':
+    opts = converter.ConversionOptions(recursive=rec, user_requested=True, optional_features=feats)
+    kwarg = None if (not kw2 and step.get('kwnone')) else kw2
+    return _outcome(api.converted_call, (callee, tuple(pos2), kwarg), {'options': opts})
+  if route == 'inner':
+    return _outcome(_driver('drive', mod, cfg, tr, drivers, fails_out), (callee, tuple(pos2), kw2), {})
+  if route == 'inner_attr':
+    return _outcome(_driver('drive_attr', mod, cfg, tr, drivers, fails_out), (recv, tuple(pos2), kw2), {})
+  raise ValueError('unknown route %r' % route)
 
 
 def _peek(env, mod):
@@ -740,15 +915,17 @@ def static_clauses(ref, conv, mod, is_bound_method, fails, tag):
   # ---- bound methods take the instance first
   if is_bound_method:
     names = list(sc.parameters)
-    if not names or names[0] != 'self':
+    first = list(so.parameters)[:1]   # the unbound original: (self, ...) or, for a classmethod, (cls, ...)
+    if not names or names[:1] != first or names[0] not in ('self', 'cls'):
       fails.append(('method:instance-first', {'conv': str(sc), 'conversion': tag}))
 
 
-def _run_script(script, env, mod, convs, cfg, tr, mixed, fails_out):
+def _run_script(script, env, mod, convs, cfg, tr, mixed, fails_out, stats=None):
   """Executes the script; returns the list of observations. On env B (mixed) steps with side 'c'
   go through converted functions."""
   obs = []
   conv_setters = {}
+  drivers = {}
   for step in script:
     op = step['op']
     side = step.get('side', 'o') if mixed else 'o'
@@ -760,12 +937,40 @@ def _run_script(script, env, mod, convs, cfg, tr, mixed, fails_out):
       pos, kw = list(step['bind']['pos']), {k: v for k, v in step['bind']['kw']}
       pos = [list(x) if isinstance(x, list) else x for x in pos]
       kw = {k: (list(v) if isinstance(v, list) else v) for k, v in kw.items()}
-      if side == 'c':
-        if env['selfs'][ti] is not None:
-          pos = [env['selfs'][ti]] + pos
+      route = step.get('route', 'direct')
+      recv = env['selfs'][ti]
+      if side == 'c' and stats is not None:
+        stats['route:' + route] = stats.get('route:' + route, 0) + 1
+        if step.get('partial') and route not in ('direct', 'inner_attr'):
+          stats['partial'] = stats.get('partial', 0) + 1
+        if step.get('unbound') and recv is not None and route in ('convert', 'cc', 'inner'):
+          stats['unbound'] = stats.get('unbound', 0) + 1
+        if recv is not None:
+          tv = _truth(recv)
+          if tv is not True:
+            k_ = 'route:%s:%s' % (route, 'receiver-falsy-at-call' if tv is False else 'receiver-truth-raises')
+            stats[k_] = stats.get(k_, 0) + 1
+      if side == 'c' and route != 'direct':
+        r = _dynamic_call(step, env['targets'][ti], env['refs'][ti], recv, pos, kw, mod, cfg, tr, drivers, fails_out)
+      elif side == 'c':
+        if recv is not None:
+          pos = [recv] + pos
         r = _outcome(convs[ti], pos, kw)
       else:
         r = _outcome(env['targets'][ti], pos, kw)
+    elif op == 'toggle':
+      ti = step['ti']
+      recv = env['selfs'][ti] if ti < len(env['selfs']) else None
+      if recv is None:
+        obs.append(None)
+        continue
+      recv.on = not recv.on
+      if isinstance(recv, list):
+        if recv.on:
+          recv.append(1)
+        else:
+          del recv[:]
+      r = ['ok', repr(recv.on)]
     elif op == 'poke':
       f = env['poke'].get(step['key'])
       if f is None:
@@ -803,6 +1008,8 @@ def _first_diff(script, oa, ob):
     op = step['op']
     if a['result'] != b['result']:
       ra, rb = a['result'], b['result']
+      route = step.get('route', 'direct')
+      rt = '' if route == 'direct' else ('[%s%s]' % (route, '+partial' if step.get('partial') else ''))
       if op == 'call' and side == 'c':
         if ra[0] == 'exc' and ra[1] == 'TypeError' and rb[0] == 'ok':
           bkt = 'call:accepts-call-original-rejects'
@@ -816,6 +1023,8 @@ def _first_diff(script, oa, ob):
         bkt = 'state:original-call-differs-after-converted-steps'
       else:
         bkt = '%s:result' % op
+      if op == 'call' and side == 'c':
+        bkt += rt
       return bkt, {'step': i, 'op': step, 'reference': ra, 'got': rb}
     sa, sb = a['state'], b['state']
     if sa != sb:
@@ -915,7 +1124,17 @@ def run_case(case):
     script = case.get('script', [])
     side_fails = []
     oa = _run_script(script, envA, modA, None, cfg, None, False, side_fails)
-    ob = _run_script(script, envB, modB, convs, cfg, tr, True, side_fails)
+    stats = info['stats'] = {}
+    old_strict = os.environ.get('AUTOGRAPH_STRICT_CONVERSION')
+    if cfg.get('strict'):
+      os.environ['AUTOGRAPH_STRICT_CONVERSION'] = '1'
+    try:
+      ob = _run_script(script, envB, modB, convs, cfg, tr, True, side_fails, stats)
+    finally:
+      if old_strict is None:
+        os.environ.pop('AUTOGRAPH_STRICT_CONVERSION', None)
+      else:
+        os.environ['AUTOGRAPH_STRICT_CONVERSION'] = old_strict
     fails += side_fails
     info['evals'] += len(script)
     for step, a in zip(script, oa):
@@ -949,7 +1168,7 @@ def run_case(case):
 def classes_of(case, info):
   spec, cfg = case['spec'], case['config']
   cls = ['kind=' + spec['kind'], 'entry=' + cfg['entry'], 'recursive=%s' % cfg['recursive'],
-         'features=' + '+'.join(cfg['features'])]
+         'features=' + '+'.join(cfg['features']), 'strict-conversion=%s' % bool(cfg.get('strict'))]
   if cfg['reconvert']:
     cls.append('reconverted(cache-hit)')
   ps = spec['params']
@@ -1002,6 +1221,19 @@ def classes_of(case, info):
     cls.append('decorated:' + '+'.join(spec['deco']))
   if spec.get('super'):
     cls.append('method-uses-super')
+  if is_method(spec['kind']):
+    cls.append('method=' + spec.get('meth', 'instance'))
+    cls.append('receiver=' + spec.get('inst', 'plain'))
+    if spec.get('callable') and spec.get('meth') != 'classmethod':
+      cls.append('receiver-is-callable-object')
+    fr = falsy_receiver(spec)
+    if fr is not False:
+      cls.append('receiver-falsy-at-conversion' if fr else 'receiver-truth-raises-at-conversion')
+  for k_, n_ in sorted((info.get('stats') or {}).items()):
+    if n_:
+      cls.append('callee:' + k_ if k_ in ('partial', 'unbound') else k_)
+  if any(st_['op'] == 'toggle' for st_ in case['script']):
+    cls.append('script:toggles-receiver-truth')
   for st_ in case['script']:
     if st_['op'] == 'poke' and st_['side'] == 'c':
       cls.append('script:rebind-through-converted-sibling')
@@ -1077,6 +1309,19 @@ def _spec_candidates(case):
   for i in range(len(spec.get('stmts', [])) - 1, -1, -1):
     c = copy.deepcopy(case)
     del c['spec']['stmts'][i]
+    yield c
+  for i, s in enumerate(case['script']):
+    if s['op'] == 'call' and s.get('partial'):
+      c = copy.deepcopy(case)
+      del c['script'][i]['partial']
+      yield c
+  if spec.get('inst', 'plain') not in ('plain', 'bool'):
+    c = copy.deepcopy(case)
+    c['spec']['inst'] = 'bool' if spec['inst'] == 'len' else 'plain'
+    yield c
+  if spec.get('meth') == 'classmethod':
+    c = copy.deepcopy(case)
+    c['spec']['meth'] = 'instance'
     yield c
   for key in ('deco', 'post', 'ret_anno', 'uncaptured', 'copies', 'super', 'gread', 'gwread'):
     if spec.get(key):
